@@ -313,6 +313,160 @@ fn datagrams_from_transmit(transmit: &Transmit<'_>) -> Datagrams {
     }
 }
 
+/// Verification hooks, compiled only with `--cfg iroh_verif`.
+#[cfg(iroh_verif)]
+pub mod verif_hooks {
+    use std::{
+        io,
+        num::NonZeroU16,
+        task::{Context, Poll},
+    };
+
+    use bytes::Bytes;
+    use iroh_base::{EndpointId, RelayUrl};
+    use iroh_relay::protos::relay::Datagrams;
+    use n0_future::task::{self, AbortOnDropHandle};
+    use tokio::sync::mpsc;
+
+    use super::{
+        HomeRelayWatch, RecvInfo, RelayActorMessage, RelayRecvDatagram, RelaySendItem,
+        RelayTransport,
+    };
+    use crate::socket::transports::Addr;
+
+    /// One filled receive slot as handed to QUIC by `RelayTransport::poll_recv`.
+    #[derive(Debug, Clone, PartialEq, Eq)]
+    pub struct Slot {
+        /// The first `meta.len` bytes of the receive buffer.
+        pub contents: Vec<u8>,
+        /// `meta.stride`.
+        pub stride: usize,
+        /// Whether `meta.ecn` is set.
+        pub has_ecn: bool,
+        /// The sender recorded in the slot's `RecvInfo` (relay url, endpoint id).
+        pub src: Option<(RelayUrl, EndpointId)>,
+    }
+
+    /// A [`RelayTransport`] without relay actor: the receive queue is fed by the caller.
+    #[derive(Debug)]
+    pub struct RecvHarness {
+        transport: RelayTransport,
+        tx: Option<mpsc::Sender<RelayRecvDatagram>>,
+        _send_rx: mpsc::Receiver<RelaySendItem>,
+        _actor_rx: mpsc::Receiver<RelayActorMessage>,
+    }
+
+    impl RecvHarness {
+        /// Creates the transport with a receive queue of `capacity`.
+        ///
+        /// Must be called inside a tokio runtime (the actor handle is an empty task).
+        pub fn new(capacity: usize, my_endpoint_id: EndpointId) -> Self {
+            let (send_tx, send_rx) = mpsc::channel(1);
+            let (recv_tx, recv_rx) = mpsc::channel(capacity);
+            let (actor_tx, actor_rx) = mpsc::channel(1);
+            let transport = RelayTransport {
+                relay_datagram_recv_queue: recv_rx,
+                relay_datagram_send_channel: send_tx,
+                pending_item: None,
+                actor_sender: actor_tx,
+                _actor_handle: AbortOnDropHandle::new(task::spawn(async {})),
+                my_relay: HomeRelayWatch::default(),
+                my_endpoint_id,
+            };
+            Self {
+                transport,
+                tx: Some(recv_tx),
+                _send_rx: send_rx,
+                _actor_rx: actor_rx,
+            }
+        }
+
+        /// `try_send` of one received batch into the receive queue, as `ActiveRelayActor` does.
+        ///
+        /// `ecn` are the two ECN bits (`0` = none), `segment_size` `0` means `None`.
+        /// Returns `false` if the queue is full or closed.
+        pub fn push(
+            &self,
+            url: RelayUrl,
+            src: EndpointId,
+            ecn: u8,
+            segment_size: u16,
+            contents: &[u8],
+        ) -> bool {
+            let datagrams = Datagrams {
+                ecn: noq_proto::EcnCodepoint::from_bits(ecn),
+                segment_size: NonZeroU16::new(segment_size),
+                contents: Bytes::copy_from_slice(contents),
+            };
+            match &self.tx {
+                Some(tx) => tx
+                    .try_send(RelayRecvDatagram {
+                        url,
+                        src,
+                        datagrams,
+                    })
+                    .is_ok(),
+                None => false,
+            }
+        }
+
+        /// Drops the only sender of the receive queue.
+        pub fn close(&mut self) {
+            self.tx = None;
+        }
+
+        /// Number of batches in the receive queue (not counting the pending item).
+        pub fn queued(&self) -> usize {
+            self.transport.relay_datagram_recv_queue.len()
+        }
+
+        /// Remaining content length of the pending item, if there is one.
+        pub fn pending_item_len(&self) -> Option<usize> {
+            self.transport
+                .pending_item
+                .as_ref()
+                .map(|item| item.datagrams.contents.len())
+        }
+
+        /// Calls `RelayTransport::poll_recv` with one zeroed buffer per entry of `buf_lens`
+        /// and returns the filled slots.
+        pub fn poll_recv(
+            &mut self,
+            cx: &mut Context,
+            buf_lens: &[usize],
+        ) -> Poll<io::Result<Vec<Slot>>> {
+            let mut storage: Vec<Vec<u8>> = buf_lens.iter().map(|len| vec![0u8; *len]).collect();
+            let mut bufs: Vec<io::IoSliceMut<'_>> = storage
+                .iter_mut()
+                .map(|buf| io::IoSliceMut::new(buf))
+                .collect();
+            let mut metas = vec![noq_udp::RecvMeta::default(); buf_lens.len()];
+            let mut recv_infos = vec![RecvInfo::default(); buf_lens.len()];
+            let res = self
+                .transport
+                .poll_recv(cx, &mut bufs, &mut metas, &mut recv_infos);
+            match res {
+                Poll::Pending => Poll::Pending,
+                Poll::Ready(Err(err)) => Poll::Ready(Err(err)),
+                Poll::Ready(Ok(n)) => {
+                    let slots = (0..n)
+                        .map(|i| Slot {
+                            contents: bufs[i][..metas[i].len].to_vec(),
+                            stride: metas[i].stride,
+                            has_ecn: metas[i].ecn.is_some(),
+                            src: match recv_infos[i].remote() {
+                                Addr::Relay(url, id) => Some((url.clone(), *id)),
+                                _ => None,
+                            },
+                        })
+                        .collect();
+                    Poll::Ready(Ok(slots))
+                }
+            }
+        }
+    }
+}
+
 #[cfg(test)]
 mod tests {
     use std::{collections::BTreeSet, time::Duration};
